@@ -49,6 +49,10 @@ def shapes(tier):
     # ... given on another time scale than TCB (UTC), and disabled
     out.append({"poly": 2, "noff": 0, "jitter": "constant", "units": "default", "tref": "explicit_utc"})
     out.append({"poly": 1, "noff": 0, "jitter": "sampled", "units": "other", "tref": "false"})
+    # samples carrying ln_prior / ln_likelihood columns whose maximum is NOT at the median period (the initial point is still the
+    # median-period sample), and samples carrying a reference epoch of their own (the model follows the DATA's epoch)
+    out.append({"poly": 1, "noff": 0, "jitter": "constant", "units": "default", "samples": "with_logprobs"})
+    out.append({"poly": 2, "noff": 0, "jitter": "constant", "units": "default", "samples": "own_tref"})
     # call history: setup_mcmc was already run in this model context with the same data and another choice of samples (the
     # second call returns early with the new initial point; with OTHER data the model would silently keep the first data
     # set -- C11 does not quantify over such histories, see DESIGN 7.4)
@@ -92,6 +96,15 @@ def _build(shape):
         prior = tj.JokerPrior.default(P_min=(3 * u.day).to(Pun), P_max=(200 * u.day).to(Pun), sigma_K0=(25 * u.km / u.s).to(vun), sigma_v=sv if npoly > 1 else sv[0],
                                       poly_trend=npoly, v0_offsets=offs, **kw)
         samples = prior.sample(size=5, generate_linear=True, rng=np.random.default_rng(4))
+        if shape.get("samples") == "with_logprobs":
+            order = np.argsort(samples["P"].to_value(u.day))
+            lp = np.zeros(5)
+            lp[order[0]] = 50.0                      # the best row by ln_prior + ln_likelihood is the SHORTEST period, not the median one
+            samples["ln_prior"] = lp
+            samples["ln_likelihood"] = -np.arange(5.0)
+        elif shape.get("samples") == "own_tref":
+            samples.tbl.meta["t_ref"] = Time(t.tcb.mjd.min() - 31.5, format="mjd", scale="tcb")
+            assert samples.t_ref is not None
         joker = tj.TheJoker(prior, rng=np.random.default_rng(5))
         if shape.get("history") == "other_samples_first":
             joker.setup_mcmc(data, samples[3:4])
